@@ -69,7 +69,7 @@ PROPS = {
                 "Two thirds of the cases inject sleeps/yields before every cache-lock acquisition (hook cache.VerifLockHook, build tag verif); query calls alternate between a filter and a full-text search for a word of the titles being created; once the workers are done every excerpt must describe its bug's current snapshot. TestC18Recency: a bug resolved a moment ago is not the eviction victim. TestC18SnapshotStable: a snapshot taken before an edit reads the same after later edits.",
         "assumptions": ["the harness does not own the Go scheduler: outcomes are checked for the interleavings the runtime happens to produce",
                         "race-detector reports alone are not violations (the property states outcomes)",
-                        "cache sizes that force eviction are exercised only by TestC18Eviction because of the known finding it reports"],
+                        "cache sizes that force eviction are exercised by TestC18Eviction, TestC18Recency and TestC18Preemption only (single-threaded or harness-owned schedules), because of the known finding the eviction has"],
         "tests": [{"name": "TestC18Concurrent", "quick": 100, "shards_quick": 4, "thorough": 500, "shards": 12, "race": True},
                   {"name": "TestC18Hammer", "quick": 6, "shards_quick": 3, "thorough": 40, "shards": 8, "race": True},
                   {"name": "TestC18Eviction", "quick": None, "thorough": None},
@@ -562,3 +562,35 @@ MANIFEST_TEXT = {
 # Properties not (yet) claimed, with the reason. Entries whose id is in PROPS are ignored.
 _PENDING = "check not built yet in this session (planned, see DESIGN.md §4); not claimed until its harness exists and is silent on the unchanged tree"
 NOT_APPLICABLE = {}
+
+# Rule texts for the tests added after seeded round 6 (appended to the property's rule, which the evidence copies).
+_ROUND6_RULES = {
+    "C02": "TestC02CLIPull: the pull command itself on a host, a peer and a bare remote driven by the real binary; generated steps (peer "
+           "creates/comments/pushes, host comments/creates/pushes, stock git fetch of git-bug's refspecs, pull), optionally a first pull "
+           "before the host has an identity; planned ending: the remote gains commits, optionally a local edit, optionally a stock-git "
+           "fetch, then pull. Oracle (stock git merge-base --is-ancestor): after a pull every remote-tracking reference is contained in "
+           "the local reference of the same entity, an entity only the remote had exists locally, the old local head is an ancestor of "
+           "the new one. Non-trivial: a pull that started with references fetched earlier and not merged.",
+    "C03": "For every crafted DAG that is refused, the same DAG is also the LOCAL side of a merge on a fresh in-memory backend: a valid "
+           "sibling of the root is the remote branch; the merge must not report new/updated, the local reference stays, and no clock "
+           "ends above max(before, what the valid remote branch stores).",
+    "C04": "A cache already open on the second replica (built from git or loaded from its files, bug resolved or not) pulls a later "
+           "comment made on the first replica: the bug it hands out lists expected + that comment.",
+    "C05": "TestC05CLI may plant, before the final clock loss, a reference under refs/bugs/ that is not a bug (named to sort first or "
+           "last); commands may then refuse to run, the stored-times oracle is unchanged.",
+    "C06": "TestC06ApiMutations: one GraphQL mutation (addCommentAndClose/Reopen, addComment, setTitle, changeLabels, closeBug, openBug, "
+           "newBug) sent to a handler over a cache over the fault-injecting repository; every abort point k enumerated; states compared "
+           "by shape (operation kinds, status, title, comment texts, labels) because API timestamps are the wall clock: after the crash "
+           "every bug has its shape from before the action or from after the complete action. Non-trivial: abort at a mutation other "
+           "than a clock witness.",
+    "C08": "Each case ends with a pull through the cache of a second replica that met the author at its first version (cache built then; "
+           "author resolved, or cache re-opened, or neither): the later versions and the commit arrive in one pull and the merge status "
+           "must agree with keysInForce(T) over the whole version history.",
+    "C18": "TestC18Preemption (needs the lock hook): call A (mutate/comment + Commit or CommitAsNeeded on an identity or a bug) is parked "
+           "before its K-th cache-mutex acquisition, K in 0..14; call B (resolve the other entities under cache size 1..3, create one, "
+           "list, read A's entity, GetUserIdentity) runs meanwhile; A is released after 150 ms or when B is done. Both return within "
+           "10 s; no panic; an acknowledged commit is in git exactly once. Non-trivial: A reached its K-th acquisition. The schedules "
+           "where A is parked before taking its entity's lock and B evicts that entity block for ever: known finding F16.",
+}
+for _k, _v in _ROUND6_RULES.items():
+    PROPS[_k]["rule"] += " " + _v
